@@ -112,7 +112,9 @@ Variables (R : bdd) (yj : list bdd) (xjk : list (list bdd)).
 Hypothesis Hg : nth_error goals j = Some R.
 Hypothesis Hyj : nth_error yij j = Some yj.
 Hypothesis Hxj : nth_error xijk j = Some xjk.
-Hypothesis Hon : onion nx ny E S moore plus_one holds R z bfalse yj xjk.
+Variable gl : bdd.
+Hypothesis Hon : onion nc nx ny E S moore plus_one holds gl bfalse yj xjk.
+Hypothesis Hgl : forall s, inr nc nx ny s -> gl s = true -> R s = true /\ cp z s = true.
 Hypothesis Hzl : forall s, z s = true -> last yj bfalse s = true.
 Hypothesis Sz : spred z.
 Hypothesis SR : spred R.
@@ -284,7 +286,10 @@ Qed.
 (* the step exists in rho_1 \/ rho_2 \/ rho_3 *)
 Theorem rho_nonblocking : NB R123.
 Proof.
-  destruct (onion_find nx ny E S moore plus_one holds R z bfalse yj xjk s0 Hon
+  assert (Hs0 : inr nc nx ny s0).
+  { unfold inr, in_range, sv. cbn [vc vx vy vxp vyp].
+    repeat rewrite andb_true_iff. repeat rewrite Nat.ltb_lt. lia. }
+  destruct (onion_find nc nx ny E S moore plus_one holds gl bfalse yj xjk s0 Hon Hs0
               eq_refl (Hzl s0 Hz))
     as [ys1 [y [ys2 [f1 [x1 [P [f2 [H1 [H2 [H3 [H4 [H5 [H6 [H7 H8]]]]]]]]]]]]]].
   apply orb_true_iff in H8. destruct H8 as [H8|HA].
@@ -292,7 +297,43 @@ Proof.
     + apply andb_true_iff in HC. destruct HC as [HP Hcx].
       exists j. split; [exact jG|]. apply (case_C f1 x1 P f2); assumption.
     + apply (case_B ys1 y ys2); assumption.
-  - apply andb_true_iff in HA. destruct HA as [HR Hcz]. apply case_A; assumption.
+  - destruct (Hgl s0 Hs0 HA) as [HR Hcz]. apply case_A; assumption.
+Qed.
+
+
+(* ... hence in the synthesized action *)
+Theorem action_nonblocking : NB (fun w => A w).
+Proof.
+  destruct rho_nonblocking as [m' [Hm' Hnb]]. exists m'. split; [exact Hm'|].
+  assert (Hlim : forall x' yb',
+    memo nc nx nyE (fun v => Nat.leb (cnt G v) (length goalsL - 1)) (ev c x yb j x' yb' m') = true).
+  { intros x' yb'. rewrite memo_id, (cnt_ev G HG) by exact jG. rewrite map_length.
+    apply Nat.leb_le. lia. }
+  assert (Hu0 : forall x' yb',
+    R123 (ev c x yb j x' yb' m') = true ->
+    Arena.band nc nx nyE
+      (Arena.bor nc nx nyE
+         (Arena.bor nc nx nyE (rho_1 nc nx ny G EL SL goalsL moore plus_one (L z))
+                              (rho_2 nc nx ny G EL SL moore plus_one yijL))
+         (rho_3 nc nx ny G EL SL holdsL moore plus_one xijkL))
+      (memo nc nx nyE (fun v => Nat.leb (cnt G v) (length goalsL - 1)))
+      (ev c x yb j x' yb' m') = true).
+  { intros x' yb' H. rewrite band_spec, !bor_spec, Hlim, andb_true_r. exact H. }
+  unfold streett_action. cbv zeta. unfold NBm in *.
+  destruct plus_one eqn:Ep.
+  - destruct moore eqn:Em.
+    + destruct Hnb as [yb' [Hyb' Hall]]. exists yb'. split; [exact Hyb'|].
+      intros x' Hx'. apply Hu0, Hall, Hx'.
+    + intros x' Hx'. destruct (Hnb x' Hx') as [yb' [Hyb' H]]. exists yb'.
+      split; [exact Hyb'|]. apply Hu0, H.
+  - destruct moore eqn:Em.
+    + destruct Hnb as [yb' [Hyb' Hall]]. exists yb'. split; [exact Hyb'|].
+      intros x' Hx'. rewrite forall_spec. cbn [forall_raw dom].
+      apply forallb_forall. intros x'' Hx''. apply in_seq in Hx''.
+      change (setg Envp (ev c x yb j x' yb' m') x'') with (ev c x yb j x'' yb' m').
+      rewrite bor_spec, (Hu0 x'' yb' (Hall x'' ltac:(lia))). reflexivity.
+    + intros x' Hx'. destruct (Hnb x' Hx') as [yb' [Hyb' H]]. exists yb'.
+      split; [exact Hyb'|]. rewrite bor_spec, (Hu0 x' yb' H). reflexivity.
 Qed.
 
 End NB4.
